@@ -6,6 +6,7 @@ compiled code; the verdicts are diffed.  Translator validation pushes concrete i
 functions and through the encoding."""
 import json
 import random
+import re
 import z3
 import e2
 import mir
@@ -194,12 +195,21 @@ def e2_part(run, scr, sess, seed, tier='quick'):
         n = bvv('n', 'usize')
         resA, oblA = EP.run(cA[0], [None, n])
         r1 = merged(EP, resA)
-        rin = [v for k, v in EP.inputs.items() if k.startswith('r[') and k.endswith('[n]')]
+        def rcaps(n_):      # names of the captured coefficient arrays in environment order (first: r, second: the r1 vector)
+            out_ = []
+            for pl, nm in funcs[n_].debug.items():
+                mm_ = re.match(r'^\(\*\(\(\*_1\)\.(\d+): &\[(?:types::)?R; K\]\)\)$', pl)
+                if mm_:
+                    out_.append((int(mm_.group(1)), nm))
+            return [nm for _, nm in sorted(out_)]
+        capA, capB = rcaps(cA[0]), rcaps(cB[0])
+        nA = capA[0] if capA else 'r'; nB0 = capB[0] if capB else 'r'; nB1 = capB[1] if len(capB) > 1 else 'r_1'
+        rin = [v for k, v in EP.inputs.items() if k.startswith(nA + '[') and k.endswith('[n]')]
         EP2 = e2.Exec(funcs, params={'K': 1})
         resB, oblB = EP2.run(cB[0], [None, n])
         r0 = merged(EP2, resB)
-        rinB = [v for k, v in EP2.inputs.items() if k.startswith('r[') and k.endswith('[n]')]
-        r1B = [v for k, v in EP2.inputs.items() if k.startswith('r_1[') and k.endswith('[n]')]
+        rinB = [v for k, v in EP2.inputs.items() if k.startswith(nB0 + '[') and k.endswith('[n]')]
+        r1B = [v for k, v in EP2.inputs.items() if k.startswith(nB1 + '[') and k.endswith('[n]')]
         if len(rin) == 1 and len(rinB) == 1 and len(r1B) == 1:
             rv = rin[0].t
             prep = z3.And(rv >= 0, rv < Q, z3.ULT(n.t, 256), *[v.t == 0 for k, v in list(EP.inputs.items()) + list(EP2.inputs.items()) if k == 'k'])
